@@ -498,4 +498,600 @@ theorem dropped_after_close (ops after : List Op) (hafter : ∀ op ∈ after, op
   intro v
   exact Dropped.close _
 
+
+/-! ### the wire mirrors the reasons: the last attempt is an AddUser iff the reasons are non-empty -/
+
+theorem edge_last (pre : List Frame) (f : Flags) (r : Req)
+    (h : pre.getLast? = some .addUser ↔ f ≠ Flags.empty) :
+    ((pre ++ edge f r).getLast? = some .addUser ↔ r.apply f ≠ Flags.empty) := by
+  unfold edge
+  split
+  · next h0 =>
+    split
+    · simp [h0]
+    · next hf =>
+      have : ¬ pre.getLast? = some .addUser := fun hp => hf (h.mp hp)
+      simpa [h0] using this
+  · next h0 =>
+    split
+    · simp [h0]
+    · next hf =>
+      have hf' : f ≠ Flags.empty := fun hfe => hf (Or.inl hfe)
+      simp [h0]; exact h.mpr hf'
+
+theorem specFramesFrom_last (rs : List Req) : ∀ (f : Flags) (pre : List Frame),
+    (pre.getLast? = some .addUser ↔ f ≠ Flags.empty) →
+    ((pre ++ specFramesFrom f rs).getLast? = some .addUser ↔ specFlagsFrom f rs ≠ Flags.empty) := by
+  induction rs with
+  | nil => intro f pre h; simpa [specFramesFrom, specFlagsFrom] using h
+  | cons r rs ih =>
+    intro f pre h
+    have := ih (r.apply f) (pre ++ edge f r) (edge_last pre f r h)
+    simpa [specFramesFrom, specFlagsFrom, List.append_assoc] using this
+
+theorem specFrames_last (rs : List Req) :
+    (specFrames rs).getLast? = some .addUser ↔ specFlags rs ≠ Flags.empty := by
+  have := specFramesFrom_last rs Flags.empty [] (by simp)
+  simpa [specFrames, specFlags] using this
+
+theorem wire_of_inv {now : Nat} {U : User} (h : UInv now U) :
+    U.frames.getLast? = some .addUser ↔ U.flagsOf ≠ Flags.empty := by
+  rw [h.frames, h.flags]; exact specFrames_last _
+
+/-! ### `reasons`: how each step changes the fold of the requests made -/
+
+theorem mem_dedup {u : Nat} {l : List Nat} : u ∈ dedup l ↔ u ∈ l := by
+  induction l with
+  | nil => simp [dedup]
+  | cons a l ih =>
+    unfold dedup
+    split
+    · next ha =>
+      constructor
+      · intro h; exact List.mem_cons_of_mem _ (ih.mp h)
+      · intro h
+        cases List.mem_cons.mp h with
+        | inl h => exact ih.mpr (h ▸ ha)
+        | inr h => exact ih.mpr h
+    · simp [ih]
+
+theorem issued_track (U : User) (f : Flags) : (U.track f).issued = U.issued ++ [⟨true, f⟩] := by
+  unfold User.track; cases U.entry <;> rfl
+
+theorem issued_untrack (U : User) (f : Flags) : (U.untrack f).issued = U.issued ++ [⟨false, f⟩] := by
+  unfold User.untrack; cases U.entry <;> rfl
+
+theorem issued_reap (U : User) (g : Nat) : (U.reap g).issued = U.issued := by
+  unfold User.reap
+  repeat' split
+  all_goals rfl
+
+theorem specFlags_issued_retryFires (U : User) (now : Nat) :
+    specFlags (U.retryFires now).issued = specFlags U.issued := by
+  unfold User.retryFires
+  repeat' split
+  all_goals first | rfl | simp [specFlags_append, retryReq, Req.apply]
+
+theorem reasons_track (s : State) (v : Nat) (f : Flags) (u : Nat) :
+    reasons (step s (.track v f)) u = if u = v then (reasons s u).add f else reasons s u := by
+  unfold reasons
+  by_cases h : u = v
+  · subst h; simp [step, State.upd, issued_track, specFlags_append, Req.apply]
+  · simp [step, State.upd, h]
+
+theorem reasons_untrack (s : State) (v : Nat) (f : Flags) (u : Nat) :
+    reasons (step s (.untrack v f)) u = if u = v then (reasons s u).remove f else reasons s u := by
+  unfold reasons
+  by_cases h : u = v
+  · subst h; simp [step, State.upd, issued_untrack, specFlags_append, Req.apply]
+  · simp [step, State.upd, h]
+
+theorem reasons_closed (s : State) (u : Nat) : reasons (step s .serverClosed) u = Flags.empty := by
+  simp [reasons, step, User.close]
+
+theorem reasons_workerStep (s : State) (v : Nat) (env : Env) (u : Nat) :
+    reasons (step s (.workerStep v env)) u = reasons s u := by
+  unfold reasons
+  by_cases h : u = v
+  · subst h; simp [step, State.upd, (worker_ghost _ _ _).1]
+  · simp [step, State.upd, h]
+
+theorem reasons_reap (s : State) (v g : Nat) (u : Nat) : reasons (step s (.reap v g)) u = reasons s u := by
+  unfold reasons
+  by_cases h : u = v
+  · subst h; simp [step, State.upd, issued_reap]
+  · simp [step, State.upd, h]
+
+theorem reasons_retryFires (s : State) (v : Nat) (u : Nat) : reasons (step s (.retryFires v)) u = reasons s u := by
+  unfold reasons
+  by_cases h : u = v
+  · subst h; simp [step, State.upd, specFlags_issued_retryFires]
+  · simp [step, State.upd, h]
+
+theorem reasons_advance (s : State) (dt : Nat) (u : Nat) : reasons (step s (.advance dt)) u = reasons s u := rfl
+
+theorem Flags.add_idem (a f : Flags) : (a.add f).add f = a.add f := by
+  cases a; cases f; simp [Flags.add]
+
+theorem Flags.remove_idem (a f : Flags) : (a.remove f).remove f = a.remove f := by
+  cases a; cases f; simp [Flags.remove]
+
+theorem run_cons (s : State) (op : Op) (ops : List Op) : run s (op :: ops) = run (step s op) ops := rfl
+
+/-- the same reason requested for a list of users: every user in the list gets it, nobody else is touched -/
+theorem reasons_run_tracks (us : List Nat) (f : Flags) (u : Nat) : ∀ s : State,
+    reasons (run s (us.map (Op.track · f))) u = if u ∈ us then (reasons s u).add f else reasons s u := by
+  induction us with
+  | nil => intro s; simp [run]
+  | cons v us ih =>
+    intro s
+    rw [List.map_cons, run_cons, ih, reasons_track]
+    by_cases h1 : u = v <;> by_cases h2 : u ∈ us <;> simp [h1, h2, Flags.add_idem]
+
+theorem reasons_run_untracks (us : List Nat) (f : Flags) (u : Nat) : ∀ s : State,
+    reasons (run s (us.map (Op.untrack · f))) u = if u ∈ us then (reasons s u).remove f else reasons s u := by
+  induction us with
+  | nil => intro s; simp [run]
+  | cons v us ih =>
+    intro s
+    rw [List.map_cons, run_cons, ih, reasons_untrack]
+    by_cases h1 : u = v <;> by_cases h2 : u ∈ us <;> simp [h1, h2, Flags.remove_idem]
+
+/-! ### the owners: what a login / a management cycle leaves behind -/
+
+namespace World
+
+theorem mem_unfinishedUsers (w : World) (u : Nat) : u ∈ w.unfinishedUsers ↔ w.HasUnfinished u := by
+  unfold unfinishedUsers HasUnfinished
+  rw [mem_dedup]
+  simp only [List.mem_map, List.mem_filter]
+  constructor
+  · rintro ⟨x, ⟨hx, hf⟩, rfl⟩; exact ⟨x, hx, rfl, by simpa using hf⟩
+  · rintro ⟨x, hx, rfl, hf⟩; exact ⟨x, ⟨hx, by simp [hf]⟩, rfl⟩
+
+theorem mem_finishedOnlyUsers (w : World) (u : Nat) :
+    u ∈ w.finishedOnlyUsers ↔ w.HasFinished u ∧ ¬ w.HasUnfinished u := by
+  unfold finishedOnlyUsers HasFinished
+  rw [List.mem_filter, mem_dedup]
+  simp only [List.mem_map, List.mem_filter, decide_eq_true_eq]
+  constructor
+  · rintro ⟨⟨x, ⟨hx, hf⟩, rfl⟩, hn⟩; exact ⟨⟨x, hx, rfl, hf⟩, hn⟩
+  · rintro ⟨⟨x, hx, rfl, hf⟩, hn⟩; exact ⟨⟨x, ⟨hx, hf⟩, rfl⟩, hn⟩
+
+/-- one management cycle, per user -/
+theorem reasons_cycle (w : World) (u : Nat) :
+    reasons (run w.t w.cycleOps) u =
+      if w.HasUnfinished u then (reasons w.t u).add fTr
+      else if w.HasFinished u then (reasons w.t u).remove fTr
+      else reasons w.t u := by
+  unfold cycleOps
+  rw [run_append, reasons_run_untracks, reasons_run_tracks]
+  simp only [mem_unfinishedUsers, mem_finishedOnlyUsers]
+  by_cases h1 : w.HasUnfinished u <;> by_cases h2 : w.HasFinished u <;> simp [h1, h2]
+
+/-- one login, per user other than the own name -/
+theorem reasons_login (w : World) (u : Nat) (hu : u ≠ me) :
+    reasons (run w.t w.loginOps) u = if u ∈ w.friends then (reasons w.t u).add fFr else reasons w.t u := by
+  unfold loginOps
+  rw [run_cons, reasons_run_tracks, reasons_track]
+  simp [hu, mem_dedup]
+
+end World
+
+/-! ### the world invariant: the owners' reasons are what the owners can see -/
+
+@[simp] theorem tr_add_fTr (a : Flags) : (a.add fTr).tr = true := by simp [Flags.add, fTr]
+@[simp] theorem tr_remove_fTr (a : Flags) : (a.remove fTr).tr = false := by simp [Flags.remove, fTr]
+@[simp] theorem tr_add_fFr (a : Flags) : (a.add fFr).tr = a.tr := by simp [Flags.add, fFr]
+@[simp] theorem tr_remove_fFr (a : Flags) : (a.remove fFr).tr = a.tr := by simp [Flags.remove, fFr]
+@[simp] theorem tr_add_fReq (a : Flags) : (a.add fReq).tr = a.tr := by simp [Flags.add, fReq]
+@[simp] theorem tr_remove_fReq (a : Flags) : (a.remove fReq).tr = a.tr := by simp [Flags.remove, fReq]
+@[simp] theorem fr_add_fFr (a : Flags) : (a.add fFr).fr = true := by simp [Flags.add, fFr]
+@[simp] theorem fr_remove_fFr (a : Flags) : (a.remove fFr).fr = false := by simp [Flags.remove, fFr]
+@[simp] theorem fr_add_fTr (a : Flags) : (a.add fTr).fr = a.fr := by simp [Flags.add, fTr]
+@[simp] theorem fr_remove_fTr (a : Flags) : (a.remove fTr).fr = a.fr := by simp [Flags.remove, fTr]
+@[simp] theorem fr_add_fReq (a : Flags) : (a.add fReq).fr = a.fr := by simp [Flags.add, fReq]
+@[simp] theorem fr_remove_fReq (a : Flags) : (a.remove fReq).fr = a.fr := by simp [Flags.remove, fReq]
+@[simp] theorem req_add_fTr (a : Flags) : (a.add fTr).req = a.req := by simp [Flags.add, fTr]
+@[simp] theorem req_remove_fTr (a : Flags) : (a.remove fTr).req = a.req := by simp [Flags.remove, fTr]
+@[simp] theorem req_add_fFr (a : Flags) : (a.add fFr).req = a.req := by simp [Flags.add, fFr]
+@[simp] theorem req_remove_fFr (a : Flags) : (a.remove fFr).req = a.req := by simp [Flags.remove, fFr]
+@[simp] theorem empty_tr : Flags.empty.tr = false := rfl
+@[simp] theorem empty_fr : Flags.empty.fr = false := rfl
+@[simp] theorem empty_req : Flags.empty.req = false := rfl
+
+structure WInv (w : World) : Prop where
+  /-- after a cycle (and until the transfers change or the server closes) TRANSFER = "has an unfinished transfer" -/
+  trSync : w.cycleRan = true → ∀ u, (reasons w.t u).tr = decide (w.HasUnfinished u)
+  /-- a user without any transfer never carries TRANSFER -/
+  trNone : ∀ u, ¬ w.HasXfer u → (reasons w.t u).tr = false
+  /-- without a session nobody carries FRIEND -/
+  frOff : w.session = false → ∀ u, u ≠ me → (reasons w.t u).fr = false
+  /-- in a session FRIEND = "is in the friends list" -/
+  frOn : w.session = true → ∀ u, u ≠ me → (reasons w.t u).fr = decide (u ∈ w.friends)
+
+theorem WInv.init : WInv World.init := by
+  constructor <;> simp [World.init, reasons, State.init, User.init]
+
+/-- a step of the layer below made by the application (REQUESTED only) or by the tracking tasks / the clock
+leaves TRANSFER and FRIEND alone -/
+theorem reasons_step_app (s : State) (op : Op) (hop : (WOp.base op).appOk = true) (hc : op ≠ .serverClosed)
+    (u : Nat) : (reasons (step s op) u).tr = (reasons s u).tr ∧ (reasons (step s op) u).fr = (reasons s u).fr := by
+  cases op with
+  | track v f =>
+    have hf : f = fReq := by simpa [WOp.appOk] using hop
+    subst hf; rw [reasons_track]; split <;> simp
+  | untrack v f =>
+    have hf : f = fReq := by simpa [WOp.appOk] using hop
+    subst hf; rw [reasons_untrack]; split <;> simp
+  | workerStep v env => rw [reasons_workerStep]; exact ⟨rfl, rfl⟩
+  | reap v g => rw [reasons_reap]; exact ⟨rfl, rfl⟩
+  | retryFires v => rw [reasons_retryFires]; exact ⟨rfl, rfl⟩
+  | serverClosed => exact (hc rfl).elim
+  | advance dt => exact ⟨rfl, rfl⟩
+
+theorem WInv.close {w : World} (_h : WInv w) : WInv w.close := by
+  constructor <;> simp [World.close, reasons_closed]
+
+theorem hasXfer_of_unfinished {w : World} {u : Nat} (h : w.HasUnfinished u) : w.HasXfer u := by
+  obtain ⟨x, hx, hu, _⟩ := h; exact ⟨x, hx, hu⟩
+
+theorem hasXfer_of_finished {w : World} {u : Nat} (h : w.HasFinished u) : w.HasXfer u := by
+  obtain ⟨x, hx, hu, _⟩ := h; exact ⟨x, hx, hu⟩
+
+theorem WInv.cycle {w : World} (h : WInv w) : WInv (wstep w .cycle) := by
+  have hx : ∀ u, (wstep w .cycle).HasUnfinished u ↔ w.HasUnfinished u := fun _ => Iff.rfl
+  constructor
+  · intro _ u
+    show (reasons (run w.t w.cycleOps) u).tr = decide (w.HasUnfinished u)
+    rw [World.reasons_cycle]
+    by_cases h1 : w.HasUnfinished u
+    · simp [h1]
+    · by_cases h2 : w.HasFinished u
+      · simp [h1, h2]
+      · have : ¬ w.HasXfer u := by
+          rintro ⟨x, hx, hu⟩
+          cases hf : x.finished
+          · exact h1 ⟨x, hx, hu, hf⟩
+          · exact h2 ⟨x, hx, hu, hf⟩
+        simp [h1, h2, h.trNone u this]
+  · intro u hn
+    show (reasons (run w.t w.cycleOps) u).tr = false
+    have hn' : ¬ w.HasXfer u := hn
+    rw [World.reasons_cycle]
+    have h1 : ¬ w.HasUnfinished u := fun h1 => hn' (hasXfer_of_unfinished h1)
+    have h2 : ¬ w.HasFinished u := fun h2 => hn' (hasXfer_of_finished h2)
+    simp [h1, h2, h.trNone u hn']
+  · intro hs u hu
+    show (reasons (run w.t w.cycleOps) u).fr = false
+    rw [World.reasons_cycle]
+    have := h.frOff hs u hu
+    repeat' split
+    all_goals simpa using this
+  · intro hs u hu
+    show (reasons (run w.t w.cycleOps) u).fr = decide (u ∈ w.friends)
+    rw [World.reasons_cycle]
+    have := h.frOn hs u hu
+    repeat' split
+    all_goals simpa using this
+
+theorem WInv.login {w : World} (h : WInv w) : WInv (wstep w .login) := by
+  have key : ∀ u, u ≠ me → (reasons (run w.t w.loginOps) u).tr = (reasons w.t u).tr := by
+    intro u hu; rw [World.reasons_login w u hu]; split <;> simp
+  have keyMe : (reasons (run w.t w.loginOps) me).tr = (reasons w.t me).tr := by
+    unfold World.loginOps
+    rw [run_cons, reasons_run_tracks, reasons_track]
+    split <;> simp
+  have keyAll : ∀ u, (reasons (run w.t w.loginOps) u).tr = (reasons w.t u).tr := by
+    intro u; by_cases hu : u = me
+    · subst hu; exact keyMe
+    · exact key u hu
+  constructor
+  · intro hc u
+    show (reasons (run w.t w.loginOps) u).tr = decide (w.HasUnfinished u)
+    rw [keyAll]; exact h.trSync hc u
+  · intro u hn
+    show (reasons (run w.t w.loginOps) u).tr = false
+    rw [keyAll]; exact h.trNone u hn
+  · intro hs; simp [wstep] at hs
+  · intro _ u hu
+    show (reasons (run w.t w.loginOps) u).fr = decide (u ∈ w.friends)
+    rw [World.reasons_login w u hu]
+    by_cases hf : u ∈ w.friends
+    · simp [hf]
+    · cases hs : w.session
+      · simp [hf, h.frOff hs u hu]
+      · simp [hf, h.frOn hs u hu]
+
+
+theorem wstep_friend_true (w : World) (u : Nat) : wstep w (.friend u true) =
+    if u ∈ w.friends then w
+    else { w with friends := w.friends ++ [u], t := if w.session then step w.t (.track u fFr) else w.t } := rfl
+
+theorem wstep_friend_false (w : World) (u : Nat) : wstep w (.friend u false) =
+    if u ∈ w.friends then
+      { w with friends := w.friends.filter (· ≠ u), t := if w.session then step w.t (.untrack u fFr) else w.t }
+    else w := rfl
+
+theorem wstep_trm (w : World) (id : Nat) : wstep w (.trm id) =
+    match w.xfers.find? (fun x => x.id = id) with
+    | none => w
+    | some x =>
+      let rest := w.xfers.erase x
+      { w with xfers := rest, cycleRan := false,
+               t := if ∃ y ∈ rest, y.user = x.user then w.t else step w.t (.untrack x.user fTr) } := rfl
+
+theorem WInv.base {w : World} (h : WInv w) (op : Op) (hop : (WOp.base op).appOk = true) :
+    WInv (wstep w (.base op)) := by
+  by_cases hc : op = .serverClosed
+  · subst hc; exact h.close
+  · have hw : wstep w (.base op) = { w with t := step w.t op } := by
+      cases op <;> first | rfl | exact (hc rfl).elim
+    rw [hw]
+    have key := reasons_step_app w.t op hop hc
+    constructor
+    · intro hcr u; show (reasons (step w.t op) u).tr = _; rw [(key u).1]; exact h.trSync hcr u
+    · intro u hn; show (reasons (step w.t op) u).tr = _; rw [(key u).1]; exact h.trNone u hn
+    · intro hs u hu; show (reasons (step w.t op) u).fr = _; rw [(key u).2]; exact h.frOff hs u hu
+    · intro hs u hu; show (reasons (step w.t op) u).fr = _; rw [(key u).2]; exact h.frOn hs u hu
+
+theorem WInv.friend {w : World} (h : WInv w) (u : Nat) (b : Bool) : WInv (wstep w (.friend u b)) := by
+  cases b with
+  | true =>
+    rw [wstep_friend_true]
+    split
+    · exact h
+    · next hnot =>
+      constructor
+      · intro hcr v
+        show (reasons (if w.session = true then step w.t (.track u fFr) else w.t) v).tr = decide (w.HasUnfinished v)
+        split
+        · rw [reasons_track]; split <;> simpa using h.trSync hcr v
+        · exact h.trSync hcr v
+      · intro v hn
+        show (reasons (if w.session = true then step w.t (.track u fFr) else w.t) v).tr = false
+        split
+        · rw [reasons_track]; split <;> simpa using h.trNone v hn
+        · exact h.trNone v hn
+      · intro hs v hv
+        have hs' : w.session = false := hs
+        show (reasons (if w.session = true then step w.t (.track u fFr) else w.t) v).fr = false
+        simp [hs', h.frOff hs' v hv]
+      · intro hs v hv
+        have hs' : w.session = true := hs
+        show (reasons (if w.session = true then step w.t (.track u fFr) else w.t) v).fr = decide (v ∈ w.friends ++ [u])
+        simp only [hs', if_true]
+        rw [reasons_track]
+        by_cases hvu : v = u
+        · simp [hvu]
+        · simp [hvu, h.frOn hs' v hv]
+  | false =>
+    rw [wstep_friend_false]
+    split
+    · next hin =>
+      constructor
+      · intro hcr v
+        show (reasons (if w.session = true then step w.t (.untrack u fFr) else w.t) v).tr = decide (w.HasUnfinished v)
+        split
+        · rw [reasons_untrack]; split <;> simpa using h.trSync hcr v
+        · exact h.trSync hcr v
+      · intro v hn
+        show (reasons (if w.session = true then step w.t (.untrack u fFr) else w.t) v).tr = false
+        split
+        · rw [reasons_untrack]; split <;> simpa using h.trNone v hn
+        · exact h.trNone v hn
+      · intro hs v hv
+        have hs' : w.session = false := hs
+        show (reasons (if w.session = true then step w.t (.untrack u fFr) else w.t) v).fr = false
+        simp [hs', h.frOff hs' v hv]
+      · intro hs v hv
+        have hs' : w.session = true := hs
+        show (reasons (if w.session = true then step w.t (.untrack u fFr) else w.t) v).fr
+          = decide (v ∈ w.friends.filter (· ≠ u))
+        simp only [hs', if_true]
+        rw [reasons_untrack]
+        by_cases hvu : v = u
+        · simp [hvu]
+        · simp [hvu, h.frOn hs' v hv]
+    · exact h
+
+theorem WInv.tadd {w : World} (h : WInv w) (u : Nat) : WInv (wstep w (.tadd u)) := by
+  constructor
+  · intro hcr; simp [wstep] at hcr
+  · intro v hn
+    apply h.trNone v
+    rintro ⟨x, hx, hu⟩
+    exact hn ⟨x, by simp [wstep, hx], hu⟩
+  · exact h.frOff
+  · exact h.frOn
+
+theorem WInv.setFinished {w : World} (h : WInv w) (id : Nat) (b : Bool) : WInv (w.setFinished id b) := by
+  constructor
+  · intro hcr; simp [World.setFinished] at hcr
+  · intro v hn
+    apply h.trNone v
+    rintro ⟨x, hx, hu⟩
+    apply hn
+    refine ⟨if x.id = id then { x with finished := b } else x, ?_, ?_⟩
+    · simp only [World.setFinished, List.mem_map]; exact ⟨x, hx, rfl⟩
+    · split <;> exact hu
+  · exact h.frOff
+  · exact h.frOn
+
+theorem WInv.trm {w : World} (h : WInv w) (id : Nat) : WInv (wstep w (.trm id)) := by
+  rw [wstep_trm]
+  split
+  · exact h
+  · next x hfind =>
+    have hxin : x ∈ w.xfers := List.mem_of_find?_eq_some hfind
+    have trEq : ∀ v, v ≠ x.user →
+        reasons (if ∃ y ∈ w.xfers.erase x, y.user = x.user then w.t else step w.t (.untrack x.user fTr)) v
+          = reasons w.t v := by
+      intro v hv
+      split
+      · rfl
+      · rw [reasons_untrack]; simp [hv]
+    have frEq : ∀ v,
+        (reasons (if ∃ y ∈ w.xfers.erase x, y.user = x.user then w.t else step w.t (.untrack x.user fTr)) v).fr
+          = (reasons w.t v).fr := by
+      intro v
+      split
+      · rfl
+      · rw [reasons_untrack]; split <;> simp
+    constructor
+    · intro hcr; simp at hcr
+    · intro v hn
+      have hn' : ¬ ∃ y ∈ w.xfers.erase x, y.user = v := hn
+      show (reasons (if ∃ y ∈ w.xfers.erase x, y.user = x.user then w.t
+        else step w.t (.untrack x.user fTr)) v).tr = false
+      by_cases hv : v = x.user
+      · subst hv
+        simp only [hn', if_false]
+        rw [reasons_untrack]; simp
+      · rw [trEq v hv]
+        apply h.trNone v
+        rintro ⟨y, hy, hyu⟩
+        have hne : y ≠ x := fun hyx => hv (hyx ▸ hyu.symm)
+        exact hn' ⟨y, (List.mem_erase_of_ne hne).mpr hy, hyu⟩
+    · intro hs v hv
+      have hs' : w.session = false := hs
+      show (reasons _ v).fr = false
+      rw [frEq]; exact h.frOff hs' v hv
+    · intro hs v hv
+      have hs' : w.session = true := hs
+      show (reasons _ v).fr = decide (v ∈ w.friends)
+      rw [frEq]; exact h.frOn hs' v hv
+
+theorem WInv.step {w : World} (h : WInv w) (op : WOp) (hop : op.appOk = true) : WInv (wstep w op) := by
+  cases op with
+  | base op => exact h.base op hop
+  | login => exact h.login
+  | cycle => exact h.cycle
+  | friend u b => exact h.friend u b
+  | tadd u => exact h.tadd u
+  | tfin id => exact h.setFinished id true
+  | tque id => exact h.setFinished id false
+  | trm id => exact h.trm id
+
+theorem WInv.run {w : World} (h : WInv w) (ops : List WOp) (hops : ∀ op ∈ ops, op.appOk = true) :
+    WInv (wrun w ops) := by
+  induction ops generalizing w with
+  | nil => exact h
+  | cons op ops ih =>
+    exact ih (h.step op (hops op (by simp))) (fun o ho => hops o (by simp [ho]))
+
+theorem winv_reach (ops : List WOp) (hops : ∀ op ∈ ops, op.appOk = true) : WInv (wrun World.init ops) :=
+  WInv.init.run ops hops
+
+theorem wrun_append (w : World) (a b : List WOp) : wrun w (a ++ b) = wrun (wrun w a) b := by
+  simp [wrun, List.foldl_append]
+
+/-! ### every history of the world is a history of the tracking manager -/
+
+theorem wstep_base (w : World) (op : WOp) : ∃ ops, (wstep w op).t = run w.t ops := by
+  cases op with
+  | base op => exact ⟨[op], by cases op <;> rfl⟩
+  | login => exact ⟨w.loginOps, rfl⟩
+  | cycle => exact ⟨w.cycleOps, rfl⟩
+  | friend u b =>
+    cases b with
+    | false =>
+      rw [wstep_friend_false]
+      split
+      · cases hs : w.session
+        · exact ⟨[], by simp [run]⟩
+        · exact ⟨[.untrack u fFr], by simp [run]⟩
+      · exact ⟨[], rfl⟩
+    | true =>
+      rw [wstep_friend_true]
+      split
+      · exact ⟨[], rfl⟩
+      · cases hs : w.session
+        · exact ⟨[], by simp [run]⟩
+        · exact ⟨[.track u fFr], by simp [run]⟩
+  | tadd u => exact ⟨[], rfl⟩
+  | tfin id => exact ⟨[], rfl⟩
+  | tque id => exact ⟨[], rfl⟩
+  | trm id =>
+    rw [wstep_trm]
+    split
+    · exact ⟨[], rfl⟩
+    · next x _ =>
+      by_cases hc : ∃ y ∈ w.xfers.erase x, y.user = x.user
+      · exact ⟨[], by simp [hc, run]⟩
+      · exact ⟨[.untrack x.user fTr], by simp [hc, run]⟩
+
+theorem wrun_base (wops : List WOp) : ∀ (w : World) (ops0 : List Op), w.t = run State.init ops0 →
+    ∃ ops, (wrun w wops).t = run State.init ops := by
+  induction wops with
+  | nil => intro w ops0 h; exact ⟨ops0, h⟩
+  | cons op wops ih =>
+    intro w ops0 h
+    obtain ⟨ops1, h1⟩ := wstep_base w op
+    exact ih (wstep w op) (ops0 ++ ops1) (by rw [h1, h, run_append])
+
+theorem wrun_is_run (wops : List WOp) : ∃ ops, (wrun World.init wops).t = run State.init ops :=
+  wrun_base wops World.init [] rfl
+
+
+/-! ### the owners never touch REQUESTED -/
+
+theorem req_run_tracks_fTr (us : List Nat) (s : State) (u : Nat) :
+    (reasons (run s (us.map (Op.track · fTr))) u).req = (reasons s u).req := by
+  rw [reasons_run_tracks]; split <;> simp
+
+theorem req_run_untracks_fTr (us : List Nat) (s : State) (u : Nat) :
+    (reasons (run s (us.map (Op.untrack · fTr))) u).req = (reasons s u).req := by
+  rw [reasons_run_untracks]; split <;> simp
+
+theorem req_owner_step (w : World) (op : WOp) (hop : ∀ b, op ≠ .base b) (u : Nat) :
+    (reasons (wstep w op).t u).req = (reasons w.t u).req := by
+  cases op with
+  | base b => exact (hop b rfl).elim
+  | login =>
+    show (reasons (run w.t w.loginOps) u).req = _
+    unfold World.loginOps
+    rw [run_cons, reasons_run_tracks, reasons_track]
+    repeat' split
+    all_goals simp
+  | cycle =>
+    show (reasons (run w.t w.cycleOps) u).req = _
+    unfold World.cycleOps
+    rw [run_append, req_run_untracks_fTr, req_run_tracks_fTr]
+  | friend v b =>
+    cases b with
+    | true =>
+      rw [wstep_friend_true]
+      split
+      · rfl
+      · show (reasons (if w.session = true then step w.t (.track v fFr) else w.t) u).req = _
+        split
+        · rw [reasons_track]; split <;> simp
+        · rfl
+    | false =>
+      rw [wstep_friend_false]
+      split
+      · show (reasons (if w.session = true then step w.t (.untrack v fFr) else w.t) u).req = _
+        split
+        · rw [reasons_untrack]; split <;> simp
+        · rfl
+      · rfl
+  | tadd v => rfl
+  | tfin id => rfl
+  | tque id => rfl
+  | trm id =>
+    rw [wstep_trm]
+    split
+    · rfl
+    · next x _ =>
+      show (reasons (if ∃ y ∈ w.xfers.erase x, y.user = x.user then w.t
+        else step w.t (.untrack x.user fTr)) u).req = _
+      split
+      · rfl
+      · rw [reasons_untrack]; split <;> simp
+
+theorem Flags.ne_empty_iff (f : Flags) : f ≠ Flags.empty ↔ (f.req = true ∨ f.tr = true ∨ f.fr = true) := by
+  cases f with
+  | mk a b c => cases a <;> cases b <;> cases c <;> simp [Flags.empty]
+
 end AioslskVerif.Track
